@@ -23,6 +23,8 @@ func runC05(r *Run) {
 	r.rule("C05.R5", "epoch fan-out: every AVS of GetEpochEndAVSs is recomputed, errors skip; predicate endingEpoch >= StartingEpoch-1 and identifier equality", 3)
 	r.rule("C05.R6", "opt-in creates / opt-out deletes the value entry; not opted in reads as zero", 3)
 	r.rule("C05.R7", "role-typed address arguments (AVS vs operator) are not swapped at calls with both roles", 12)
+	r.rule("C05.R8", "the recomputed per-operator values are written back by the iterator helper", 1)
+	iteratorWriteBackRule(r, "C05.R8", map[string]bool{"IterateOperatorsForAVS": true})
 
 	// ---- R1
 	if v := w.View("x/operator/keeper", "CalculateUSDValue"); v == nil {
